@@ -119,9 +119,16 @@ pub fn discover<F: Flt>(
     } else {
         0.0
     };
-    let np = n as f64 * (n as f64 - 1.0);
-    let slack = 6.0 * (fp_bound.max(1.0 / np) / np).sqrt() + 2.0 / np;
-    if fp_bound < 1.0 && singleton_fp > 8.0 * fp_bound + slack {
+    // Collapse gate. X = number of keys that joined an already existing class while the classes were
+    // built. If the filter keeps the fingerprint bits it promises, a key collides with one of at
+    // most n earlier keys with probability <= n * fp_bound, so X is stochastically below
+    // Bin(n, 8 * n * fp_bound) (factor 8 of head-room). The gate fires only if the observed X has a
+    // tail probability below 1e-12 under that generous model: thousands of discoveries per run with
+    // tiny universes must not trip it by chance (a class of 4 among 15 keys at fp_bound = 0.002 does
+    // happen, about once in 10^4 discoveries).
+    let joined = (n - rep.len()) as u64;
+    let p_join = (8.0 * n as f64 * fp_bound).min(1.0);
+    if fp_bound < 1.0 && p_join < 1.0 && crate::infra::stats::binom_tail_ge(joined, n as u64, p_join) < 1e-12 {
         return Err(ClassErr::Collapsed {
             fp: singleton_fp,
             bound: fp_bound,
